@@ -448,6 +448,10 @@ func cmdCheck(args []string) {
 		}
 	}
 	sort.Strings(unc)
+	sort.Strings(res.inContext)
+	for _, h := range res.inContext {
+		fmt.Printf("IN-CONTEXT: %s has no contract and is only called directly: verified inside each caller, not on its own\n", h)
+	}
 	var abs []string
 	for f, as := range res.abstracted {
 		if funcs[f] {
@@ -500,6 +504,7 @@ func cmdCheck(args []string) {
 		"solver_time_s":            float64(solverMs) / 1000,
 		"samples":                  samples,
 		"uncontracted_calls":       unc,
+		"helpers_verified_in_context": res.inContext,
 		"abstracted_ops":           abs,
 		"known_findings":           known,
 		"not_claimed":              notClaimedList,
